@@ -82,6 +82,11 @@ def planViolations (info : NodeInfo) (B : Int) (num den : Nat) (mem : Int) (plan
   (if maps.all fun p => nearestPieces num den B (planTotal p) then [] else ["C05:amount"]) ++
   (if maps.all fun p => planShape B (planTotal p) p then [] else ["C05:shape"])
 
+/-- the workload's recorded CPU request agrees with the pieces it holds (C05); a workload recorded
+    under the old truncating conversion is outside C33's scope -/
+def recordedOk (B : Int) (w : Workload) : Bool :=
+  piecesRequest { bind := true, cpuNum := w.cpuReq.toNat, cpuDen := 1000, mem := 0 } B == planTotal w.cpuMap
+
 def c33Class (B : Int) (info : NodeInfo) (m : CpuMap) : String :=
   if !(m.all fun kv => kv.2 == B) then "fractional" else if !info.cap.numa.isEmpty then "numa" else "whole"
 
@@ -118,7 +123,7 @@ def handle (j : Json) : Json :=
       let (m, exact) := firstGood cands run (fun o => match o with | .ok ps => plansEq ps implPlans | _ => false)
       let viol := if nodeOk && cfgOk then planViolations info B req.cpuNum req.cpuDen req.mem implPlans else []
       let c33 : List String :=
-        if hasOrigin && nodeOk && cfgOk && wholeCoreNode B info && decide (0 < origin.cpuReq) then
+        if hasOrigin && nodeOk && cfgOk && wholeCoreNode B info && decide (0 < origin.cpuReq) && recordedOk B origin then
           match implPlans with
           | p :: _ => if mapEq p.cpuMap origin.cpuMap then [] else ["C33:moved:" ++ c33Class B info origin.cpuMap]
           | [] => []
@@ -178,7 +183,7 @@ def handle (j : Json) : Json :=
       else
         let (m, exact) := firstGood cands run (fun o => match o with | .ok w => wlEq w implW | _ => false)
         let inScope := nodeOk && cfgOk && wholeCoreNode B info && raw.keepBind && !origin.cpuMap.isEmpty &&
-                       decide (raw.cpuReq = 0) && decide (raw.cpuLim = 0)
+                       decide (raw.cpuReq = 0) && decide (raw.cpuLim = 0) && recordedOk B origin
         let kept := mapEq implW.cpuMap origin.cpuMap && implW.numa == origin.numa
         let c33 := if inScope && !kept then ["C33:moved:" ++ c33Class B info origin.cpuMap] else []
         let info' : NodeInfo := { info with use := info.use.sub { cpuMap := origin.cpuMap, mem := origin.memReq, numaMem := origin.numaMem } }
